@@ -415,6 +415,21 @@ fn c12(ctx: &Ctx, rep: &mut Report) {
         helpers_one(s, rep);
     }
     rep.count("case_mapping_strings", cased.len() as u64 / ctx.shards.max(1) as u64);
+    // component-structured strings: names with (multi-byte) extensions followed by what Path drops (//, /., /), dot
+    // names, schemes - longer than the character-level enumeration reaches
+    let tokens = ["a", "é", "€b", ".", "..", "/", "//", "/.", "~", "$", "a.é", ".é", "é.€", "a..", "file:", "x:"];
+    let mut structured: Vec<String> = vec![];
+    for_all_strings(&tokens, if ctx.thorough { 4 } else { 3 }, |_, s| structured.push(s.to_string()));
+    for s in &structured {
+        idx += 1;
+        if !ctx.mine(idx) {
+            continue;
+        }
+        let cls = format!("tokens:{}", sclass(s));
+        run_ops(0, &ops_one(s), &cls, rep);
+        helpers_one(s, rep);
+    }
+    rep.count("component_structured_strings", structured.len() as u64 / ctx.shards.max(1) as u64);
     for s in singles.iter().chain(extras.iter()) {
         idx += 1;
         if !ctx.mine(idx) {
